@@ -231,4 +231,49 @@ def Host.run (h : Host) : List Op → Host × List Ev
     let (h2, e2) := h1.run ops
     (h2, e1 ++ e2)
 
+/-! ### several links on one dongle: `_SharedRadio`'s instance table -/
+
+/-- `_next_instance_id` and the dict `_rsp_queues` (instance id ↦ response queue; a queue is named by the link it was
+created for). -/
+structure Shared where
+  next : Nat
+  table : Nat → Option Nat
+
+def Shared.init : Shared := { next := 0, table := fun _ => none }
+
+/-- `open_instance` for link `q`: `instance_id = self._next_instance_id; self._rsp_queues[instance_id] = rsp_queue;
+self._next_instance_id += 1`; returns the id handed to the `_SharedRadioInstance`. -/
+def Shared.open (s : Shared) (q : Nat) : Shared × Nat :=
+  ({ next := s.next + 1, table := fun k => if k = s.next then some q else s.table k }, s.next)
+
+/-- STOP command: `del self._rsp_queues[command[0]]` -/
+def Shared.stop (s : Shared) (id : Nat) : Shared :=
+  { s with table := fun k => if k = id then none else s.table k }
+
+/-- SEND_PACKET command of instance `id`: the queue that `self._rsp_queues[command[0]].put(ack)` puts the ack into -/
+def Shared.route (s : Shared) (id : Nat) : Option Nat := s.table id
+
+inductive ShOp
+  | open (q : Nat)        -- `RadioDriver.connect` of link `q` (ignored while `q` is open)
+  | close (q : Nat)       -- `RadioDriver.close` of link `q` (ignored while `q` is closed)
+  deriving Repr, DecidableEq
+
+/-- the shared radio and the live links as `(link, instance id)` -/
+structure Links where
+  sh : Shared
+  live : List (Nat × Nat)
+
+def Links.init : Links := { sh := Shared.init, live := [] }
+
+def Links.step (l : Links) : ShOp → Links
+  | .open q =>
+    if l.live.any (·.1 == q) then l
+    else { sh := (l.sh.open q).1, live := (q, (l.sh.open q).2) :: l.live }
+  | .close q =>
+    match l.live.find? (·.1 == q) with
+    | some p => { sh := l.sh.stop p.2, live := l.live.filter (·.1 != q) }
+    | none => l
+
+def Links.run (l : Links) (ops : List ShOp) : Links := ops.foldl Links.step l
+
 end CfVerif.C01
